@@ -342,7 +342,11 @@ impl Prop for Composite {
         let n = self.parts.len() as u32;
         let start = Instant::now();
         let total = deadline.saturating_duration_since(start);
+        let only: Option<usize> = std::env::var("VERIF_ONLY_PART").ok().and_then(|s| s.parse().ok());
         for (i, p) in self.parts.iter().enumerate() {
+            if only.is_some_and(|o| o != i) {
+                continue;
+            }
             // Each part gets its share of the wall budget (plus what earlier parts left over).
             let part_deadline = start + total / n * (i as u32 + 1);
             let mut r = p.worker(tier, shard, part_deadline.min(deadline));
